@@ -617,7 +617,6 @@ func decCase(cx *lib.Ctx, seed uint64) {
 		res.Fail(lib.Failure{Kind: "corr", Key: "DEC:implied-type:" + string(spec.Kind), Desc: "hcldec.ImpliedType differs from the model's impliedType", Input: input(), Model: mImplied, Impl: implied})
 		return
 	}
-	notes := map[string]bool{}
 	mixed := 0
 	if mNotes != "-" {
 		unsupported := false
@@ -626,7 +625,6 @@ func decCase(cx *lib.Ctx, seed uint64) {
 				fmt.Sscan(nt[len("blocklist-mixed*"):], &mixed)
 				continue
 			}
-			notes[nt] = true
 			if strings.HasPrefix(nt, "unsupported:") && !unsupported {
 				// a conversion outside the fragment of the model's convert: only the implied type was comparable
 				unsupported = true
@@ -657,13 +655,6 @@ func decCase(cx *lib.Ctx, seed uint64) {
 			skip("blocklist-mixed:element-types-unified")
 			return
 		}
-	}
-	if notes["blockmap-mixed"] && mStatus != "crash" && panicked && strings.HasPrefix(panicMsg, "inconsistent map element types") {
-		// the elements of some BlockMap have different types (an empty BlockMap with several label names inside,
-		// known finding C08-empty-multilabel-blockmap, or a DefaultSpec whose sides differ in type): cty.MapVal
-		// panics where the model builds a map
-		skip("blockmap-mixed:mapval-panic")
-		return
 	}
 	if (mStatus == "crash") != panicked {
 		impl := "returned " + lib.Trunc(lib.DumpValuePlain(val), 300)
